@@ -18,7 +18,6 @@ package core
 
 import (
 	"encoding/json"
-	"fmt"
 	"sync"
 	"time"
 )
@@ -385,14 +384,21 @@ func (s *LinearState) doFindRules(ctx *Context, event Map) (map[string]Map, erro
 				// results as already match-processed.
 				bss, err := Matches(ctx, pattern, event)
 				if err != nil {
-					return nil, err
+					// This rule's pattern can't be matched.
+					// That's this rule's problem; the other
+					// rules still deserve the event.
+					Log(WARN, ctx, "LinearState.FindRules", "name", s.Name, "ruleId", id, "error", err)
+					continue
 				}
 				if 0 < len(bss) {
 					acc[id] = r
 				}
 			}
 		default:
-			panic(fmt.Errorf("rule %#v bad type", rule))
+			// A fact with a 'rule' property that isn't a
+			// rule (as with IndexedState).
+			Log(WARN, ctx, "LinearState.FindRules", "name", s.Name, "id", id, "warning", "not a rule")
+			continue
 		}
 	}
 
